@@ -93,6 +93,21 @@ class AList:
         return f'AList({self.l!r})'
 
 
+class ASet:
+    """a mutable host set of concrete hashable items; its iteration order is the interpreter's `set_order` ('asc' | 'desc' by repr): a result that depends on
+    the order differs between the two runs, which is how hash-order dependence is decided"""
+
+    def __init__(self, items=()):
+        self.s = set(items)
+
+    def __repr__(self):
+        return f'ASet({sorted(self.s, key=repr)!r})'
+
+
+class AKeys(list):
+    """the keys view of a dict (an ordered list that also supports the set operators)"""
+
+
 class AIter:
     """host iterator over a concrete item list"""
 
@@ -416,6 +431,8 @@ class Interp:
             return True
         if isinstance(v, (int, float, str, tuple, list, dict, set, frozenset)):
             return bool(v)
+        if isinstance(v, ASet):
+            return bool(v.s)
         if isinstance(v, ADict):
             return bool(v.d)
         if isinstance(v, AList):
@@ -451,8 +468,8 @@ class Interp:
             return list(v.d.keys())
         if isinstance(v, (list, tuple)):
             return list(v)
-        if isinstance(v, (set, frozenset)):
-            return sorted(v, key=repr)
+        if isinstance(v, (set, frozenset, ASet)):
+            return sorted(v.s if isinstance(v, ASet) else v, key=repr, reverse=getattr(self, 'set_order', 'asc') == 'desc')
         if isinstance(v, dict):
             return list(v.keys())
         self.bad(node, f'iteration over {type(v).__name__}')
@@ -485,6 +502,11 @@ class Interp:
         return iter(self.iterate(v, node))
 
     def binop(self, op, a, b, node):
+        setlike = (ASet, set, frozenset, AKeys)
+        if isinstance(op, (ast.Sub, ast.BitOr, ast.BitAnd, ast.BitXor)) and isinstance(a, setlike) and isinstance(b, setlike):
+            sa_, sb_ = (set(x.s) if isinstance(x, ASet) else set(x) for x in (a, b))
+            r = sa_ - sb_ if isinstance(op, ast.Sub) else sa_ | sb_ if isinstance(op, ast.BitOr) else sa_ & sb_ if isinstance(op, ast.BitAnd) else sa_ ^ sb_
+            return frozenset(r) if isinstance(a, frozenset) and not isinstance(b, ASet) else ASet(r)
         if isinstance(a, (int, float, str)) and isinstance(b, (int, float, str)) and type(a) == type(b) or \
                 (isinstance(a, (int, float)) and isinstance(b, (int, float))):
             try:
@@ -580,9 +602,9 @@ class Interp:
             return AList(items) if isinstance(e, ast.List) else tuple(items)
         if isinstance(e, ast.Set):
             items = [self.eval(x, env) for x in e.elts]
-            if not all(isinstance(x, (str, int, float, tuple)) for x in items):
+            if not all(isinstance(x, (str, int, float, tuple)) or x is None for x in items):
                 self.bad(e, 'set of non-constant items')
-            return frozenset(items)
+            return ASet(items)
         if isinstance(e, ast.JoinedStr):
             parts = []
             symbolic = False
@@ -662,6 +684,8 @@ class Interp:
                     return base[key]
                 except IndexError:
                     raise RaiseSig('IndexError', (key,), e)
+            if isinstance(base, str) and (key is None or isinstance(key, (str, tuple, AList, ADict))):
+                raise RaiseSig('TypeError', ('string indices must be integers',), e)
             if isinstance(base, AList):
                 if not isinstance(key, int):
                     self.bad(e, 'list index is not a concrete int')
@@ -736,7 +760,9 @@ class Interp:
         if isinstance(e, ast.SetComp):
             items = []
             self.comp(ast.GeneratorExp(elt=e.elt, generators=e.generators), 0, dict(env), items)
-            return frozenset(items)
+            if not all(isinstance(x, (str, int, float, tuple)) or x is None for x in items):
+                self.bad(e, 'set of non-constant items')
+            return ASet(items)
         self.bad(e, f'expression kind {type(e).__name__} outside the interpreted subset')
 
     def comp(self, e, ix, env, out):
@@ -760,6 +786,10 @@ class Interp:
                 r = a in b.d
             elif isinstance(b, AList):
                 r = any(self._eq(a, x) for x in b.l)
+            elif isinstance(b, ASet):
+                if isinstance(a, (Sym, ALine, ADict, AList)):
+                    self.bad(node, 'membership of an abstract value in a set')
+                r = a in b.s
             elif isinstance(b, (tuple, list, set, frozenset, dict, str)) and not isinstance(a, (Sym, ALine)):
                 r = a in b
             else:
@@ -770,10 +800,24 @@ class Interp:
             return r if isinstance(op, ast.Eq) else not r
         if isinstance(a, (int, float)) and isinstance(b, (int, float)) and not isinstance(a, bool) and not isinstance(b, bool):
             return {ast.Lt: a < b, ast.LtE: a <= b, ast.Gt: a > b, ast.GtE: a >= b}[type(op)]
+        if isinstance(a, str) and isinstance(b, str):
+            return {ast.Lt: a < b, ast.LtE: a <= b, ast.Gt: a > b, ast.GtE: a >= b}[type(op)]
+        if isinstance(a, (int, float)) and isinstance(b, (int, float)):
+            return {ast.Lt: a < b, ast.LtE: a <= b, ast.Gt: a > b, ast.GtE: a >= b}[type(op)]        # bool is an int for the host
+        if isinstance(a, tuple) and isinstance(b, tuple) and not (a and isinstance(a[0], str) and a[0] in ('builtin', 'extern', 'closure', 'partial', 'class', 'module', 'hostattr')):
+            for x, y in zip(a, b):
+                if not self._eq(x, y):
+                    return self.compare(op, x, y, node)
+            return {ast.Lt: len(a) < len(b), ast.LtE: len(a) <= len(b), ast.Gt: len(a) > len(b), ast.GtE: len(a) >= len(b)}[type(op)]
+        if (a is None or b is None or isinstance(a, (ADict,)) or isinstance(b, (ADict,))) or \
+                (isinstance(a, (str, int, float)) and isinstance(b, (str, int, float))):
+            raise RaiseSig('TypeError', (f"'<' not supported between instances of '{type(a).__name__}' and '{type(b).__name__}'",), node)
         self.bad(node, f'ordering comparison of {type(a).__name__}, {type(b).__name__}')
 
     @staticmethod
     def _eq(a, b):
+        if isinstance(a, (ASet, set, frozenset)) and isinstance(b, (ASet, set, frozenset)):
+            return (a.s if isinstance(a, ASet) else set(a)) == (b.s if isinstance(b, ASet) else set(b))
         if isinstance(a, AList) and isinstance(b, AList):
             return a is b or (len(a.l) == len(b.l) and all(Interp._eq(x, y) for x, y in zip(a.l, b.l)))
         if isinstance(a, ADict) and isinstance(b, ADict):
@@ -851,6 +895,12 @@ class Interp:
             self._kwargs = {}
             if r is not NotImplemented:
                 return r
+        if kwargs and isinstance(fn, tuple) and fn and fn[0] == 'builtin' and fn[1] in ('sorted', 'min', 'max', 'sum', 'enumerate', 'int', 'str', 'print', 'next'):
+            self._kwargs = kwargs
+            try:
+                return self.call_builtin(fn[1], args, e)
+            finally:
+                self._kwargs = {}
         if kwargs and not isinstance(fn, ModuleFunc):
             self.bad(e, 'keyword arguments outside the subset')
         if isinstance(fn, tuple) and fn[0] == 'builtin':
@@ -1197,11 +1247,48 @@ class Interp:
             self.bad(e, f'match method {m}')
         if isinstance(base, dict) and m == 'get':
             return base.get(args[0], args[1] if len(args) > 1 else None)
+        if isinstance(base, (ASet, frozenset)):
+            cur = base.s if isinstance(base, ASet) else set(base)
+            def as_set(x):
+                items = self.iterate(x, e)
+                if not all(isinstance(i, (str, int, float, tuple)) or i is None for i in items):
+                    self.bad(e, 'set operation on non-constant items')
+                return set(items)
+            if isinstance(base, ASet) and m in ('add', 'discard', 'remove') and len(args) == 1:
+                if isinstance(args[0], (Sym, ADict, AList, ALine)):
+                    self.bad(e, f'set.{m}() of an abstract value')
+                if m == 'remove' and args[0] not in cur:
+                    raise RaiseSig('KeyError', (args[0],), e)
+                (cur.add if m == 'add' else cur.discard)(args[0])
+                return None
+            if isinstance(base, ASet) and m in ('update', 'difference_update', 'intersection_update'):
+                for a in args:
+                    other = as_set(a)
+                    if m == 'update':
+                        cur |= other
+                    elif m == 'difference_update':
+                        cur -= other
+                    else:
+                        cur &= other
+                return None
+            if isinstance(base, ASet) and m == 'clear':
+                cur.clear()
+                return None
+            if m in ('union', 'difference', 'intersection', 'symmetric_difference'):
+                r = set(cur)
+                for a in args:
+                    other = as_set(a)
+                    r = r | other if m == 'union' else r - other if m == 'difference' else r & other if m == 'intersection' else r ^ other
+                return ASet(r)
+            if m in ('issubset', 'issuperset', 'isdisjoint') and len(args) == 1:
+                return getattr(cur, m)(as_set(args[0]))
+            if m == 'copy':
+                return ASet(cur)
         if isinstance(base, ADict):
             if m == 'get':
                 return base.d.get(args[0], args[1] if len(args) > 1 else None)
             if m == 'keys':
-                return list(base.d.keys())
+                return AKeys(base.d.keys())
             if m == 'items':
                 return list(base.d.items())
             if m == 'values':
@@ -1212,6 +1299,14 @@ class Interp:
                 if len(args) > 1:
                     return args[1]
                 raise RaiseSig('KeyError', (args[0],), e)
+            if m == 'clear' and not args:
+                base.d.clear()
+                return None
+            if m == 'popitem' and not args:
+                if not base.d:
+                    raise RaiseSig('KeyError', ('popitem(): dictionary is empty',), e)
+                k = next(reversed(base.d))
+                return (k, base.d.pop(k))
             if m == 'setdefault':
                 return base.d.setdefault(args[0], args[1] if len(args) > 1 else None)
             if m == 'update':
@@ -1355,8 +1450,10 @@ class Interp:
                 return len(v.l)
             if isinstance(v, ADict):
                 return len(v.d)
-            if isinstance(v, (list, tuple, str, dict)):
+            if isinstance(v, (list, tuple, str, dict, set, frozenset)):
                 return len(v)
+            if isinstance(v, ASet):
+                return len(v.s)
             return Sym('len', v)
         if name == 'iter':
             if isinstance(args[0], (ALazy, ACount, AGen)):
@@ -1463,6 +1560,23 @@ class Interp:
                         k, v = self.iterate(pair, e)
                         out.d[k] = v
             return out
+        if name == 'sorted' and len(args) == 1:
+            kw = dict(getattr(self, '_kwargs', None) or {})
+            out = AList(self.iterate(args[0], e))
+            key = kw.get('key')
+            if key is not None and not (isinstance(key, tuple) and key and key[0] == 'cmpkey'):
+                # decorate with the key values, sort those with the host ordering of the interpreter, undecorate (stable)
+                self._kwargs = {}
+                keyed = [(self.apply(key, [x], e), i, x) for i, x in enumerate(out.l)]
+                import functools as _ft
+
+                def kcmp(p, q):
+                    return -1 if self.compare(ast.Lt(), p[0], q[0], e) else (1 if self.compare(ast.Lt(), q[0], p[0], e) else 0)
+                keyed.sort(key=_ft.cmp_to_key(kcmp), reverse=bool(kw.get('reverse', False)))
+                return AList([x for _k, _i, x in keyed])
+            self._kwargs = {k: v for k, v in kw.items() if k in ('key', 'reverse')}
+            self.call_method(out, 'sort', [], e)
+            return out
         if name == 'sum' and args:
             items = self.iterate(args[0], e)
             if all(isinstance(x, (int, float)) and not isinstance(x, bool) for x in items):
@@ -1470,11 +1584,19 @@ class Interp:
             self.bad(e, 'sum of non-numbers')
         if name in ('min', 'max') and len(args) == 1:
             items = self.iterate(args[0], e)
-            if items and all(isinstance(x, (int, float)) and not isinstance(x, bool) for x in items):
+            kw = dict(getattr(self, '_kwargs', None) or {})
+            if not items and 'default' in kw:
+                return kw['default']
+            if not items:
+                raise RaiseSig('ValueError', (f'{name}() arg is an empty sequence',), e)
+            if 'key' not in kw and (all(isinstance(x, (int, float)) and not isinstance(x, bool) for x in items) or all(isinstance(x, str) for x in items)):
                 return (min if name == 'min' else max)(items)
             self.bad(e, f'{name} of non-numbers')
         if name in ('set', 'frozenset'):
-            return frozenset(self.iterate(args[0], e)) if args else frozenset()
+            items = self.iterate(args[0], e) if args else []
+            if not all(isinstance(x, (str, int, float, tuple)) or x is None for x in items):
+                self.bad(e, f'{name}() of non-constant items')
+            return ASet(items) if name == 'set' else frozenset(items)
         if name == 'str':
             return str(args[0]) if isinstance(args[0], (int, str, float)) or args[0] is None else Sym('str', args[0])
         if name == 'bool':
